@@ -301,7 +301,7 @@ def run(ctx):
         if ok:
             # the second parse is only tried when the first failed
             t1 = kit.ok_target_of_call(f, calls[0][0])
-            ok = t1 is not None and calls[1][0] not in f.reachable(t1)
+            ok = t1 is not None and (calls[1][0] not in f.reachable(t1) or kit.feasible_path_avoiding(f, t1, calls[1][0], set(), prog=prog) is None)
         if not ok and tys == ["i16"] and rad == [radix]:
             # combinator form: `i16::from_str_radix(..).map(..).or_else(|_| u16::from_str_radix(..))` - the fallback parse lives in a
             # closure that Result::or_else only calls on Err
